@@ -2,7 +2,8 @@
   C15/Model — transcription of otto's Go <-> JavaScript value bridge.
 
   otto (Go):
-    value.go     toValue (l.269: the type switch and the reflect.Value arm), Value.export (l.619, incl. the
+    value.go     toValue (l.269: the type switch and the reflect.Value arm), Value.export/exportPath (l.620-730:
+                 the set `path` of objects being exported – entered before descending, left on EVERY return – incl. the
                  state 0/1/2 common-type inference for Arrays and the reflect.MakeSlice/Set copy),
                  Value.MarshalJSON (l.969), IsNaN (l.158) and the Is* predicates, ToInteger/ToFloat/
                  ToString/ToBoolean (l.390-460)
@@ -256,6 +257,59 @@ def exportProps : JSProps → Res GoKVs
     if isUndef v then exportProps r
     else (exportV v).bind fun g => (exportProps r).map fun kvs => .cons k g kvs
 end
+
+/-! ### `exportPath` on object GRAPHS (value.go:627): sharing and cycles
+
+  A JavaScript heap: native Arrays and Objects by address; members are self-contained values
+  (`leaf`, a tree as above) or references to other heap objects – the same object may be referenced from
+  several places (sharing) and from below itself (a cycle).  `path` is the set of objects whose export is
+  in progress: `path[obj] = struct{}{}` on entry, `defer delete(path, obj)` – i.e. it holds exactly the
+  ANCESTORS of the value being exported.  Passing `a :: path` downwards and nothing back up is that discipline. -/
+
+inductive HVal
+  | leaf (j : JS)
+  | ref (a : Nat)
+deriving DecidableEq, Inhabited
+
+inductive HNode
+  | arr (es : List (Option HVal))               -- none = hole
+  | obj (ps : List (List Nat × HVal))
+deriving DecidableEq, Inhabited
+
+abbrev Heap := List HNode
+
+/-- reflect type id of `otto.Value` (a struct type) -/
+def valueTypeId : Nat := 999
+/-- the raw `otto.Value` of heap object `a`, as it appears inside an exported Go value -/
+def rawValue (a : Nat) : GoVal := .strct valueTypeId (.cons [] (.sc false (.int .int a)) .nil)
+
+def isUndefH : HVal → Bool
+  | .leaf j => isUndef j
+  | .ref _ => false
+
+/-- the Array loop over present elements -/
+def mapElems (f : HVal → Res GoVal) : List (Option HVal) → Res GoVals
+  | [] => .ok .nil
+  | none :: r => mapElems f r
+  | some v :: r => (f v).bind fun g => (mapElems f r).map fun gs => .cons g gs
+
+/-- the Object enumeration, skipping undefined-valued properties -/
+def mapProps (f : HVal → Res GoVal) : List (List Nat × HVal) → Res GoKVs
+  | [] => .ok .nil
+  | (k, v) :: r =>
+    if isUndefH v then mapProps f r
+    else (f v).bind fun g => (mapProps f r).map fun kvs => .cons k g kvs
+
+/-- exportPath; `fuel` bounds the depth (any fuel > heap size is enough: the path never repeats an address) -/
+def exportH (H : Heap) : Nat → List Nat → HVal → Res GoVal
+  | _, _, .leaf j => exportV j
+  | 0, _, .ref _ => .err
+  | fuel + 1, path, .ref a =>
+    if a ∈ path then .ok (rawValue a)                    -- `if _, cyclic := path[obj]; cyclic { return v }`
+    else match H[a]? with
+      | none => .err
+      | some (.arr es) => (mapElems (exportH H fuel (a :: path)) es).bind finishArr
+      | some (.obj ps) => (mapProps (exportH H fuel (a :: path)) ps).map fun kvs => .map .iface false kvs
 
 /-! ### Value methods on what Get returns -/
 
